@@ -674,3 +674,17 @@ Lemma coalescer_slow_consumer_rejects :
   (* legitimate: drained in time, and a second signal is found *)
   check_C31_code 30 5 false [ES 0 1; ES 100 101; EG 110; EG 200; EEnd 300] = 0.
 Proof. vm_compute. repeat split; reflexivity. Qed.
+
+(* A strobe at time 0, as the very first action, is delivered like any other
+   ([coalescer_delivered] and [coalescer_strobe_arms] quantify over every
+   reachable state, the initial one included). *)
+Lemma coalescer_strobe_at_zero :
+  (exists s, crun 3 true cinit [AStrobe; ATick; ATick; ATick; AFire; AHandle; ATake; ATick; AEnd] = Some s /\
+     chistory s = [ES 0 0; EG 3; EEnd 4] /\ last s = Some 0%N /\ owed s = false /\ taken s = 1 /\
+     check_C31 3 0 true (chistory s) = true) /\
+  (* a strobe that returned and is never followed by a signal is rejected,
+     whenever it was issued *)
+  check_C31_code 5000 15000 true [ES 0 3; EEnd 300000] = 2 /\
+  check_C31_code 5000 15000 false [ES 0 3; EP 300000; EEnd 300001] = 2 /\
+  check_C31_code 1500 15000 false [ES 10 12; EG 1600; ES 1600 1601; EP 400000; EEnd 400001] = 2.
+Proof. split; [eexists; vm_compute; repeat split; reflexivity|vm_compute; repeat split; reflexivity]. Qed.
